@@ -708,6 +708,7 @@ func C04() *kit.Spec {
 				}
 				c.EvalN(cnt)
 				c.Steps(cnt)
+				c.Event(fmt.Sprintf("%s %d", j.kind, cnt))
 			case "seeded":
 				// cost model per transmission: syndromes n*r + Euclid r*r +
 				// Chien search |F|*r/2; the job stops when its budget is spent
@@ -736,6 +737,7 @@ func C04() *kit.Spec {
 						c.Sample(tr)
 					}
 					c.Eval(kit.HashJSON(tr), len(tr.Errors) > 0)
+					c.Event(fmt.Sprintf("%x", kit.HashJSON(tr)))
 					c.Steps(1)
 					if f := transmit(tr, probe); f != nil {
 						report04(c, tr, f, true)
